@@ -283,7 +283,7 @@ type omap struct {
 	idx     map[value]*mentry // only for concrete keys of builtin-hashable types
 	n       int
 	dead    int
-	nonIdx  int // live entries not in idx (symbolic or aggregate keys)
+	nonIdx  int    // live entries not in idx (symbolic or aggregate keys)
 	raceLoc *value // the map as one location of the race detector (concurrent map read/write is fatal in Go)
 }
 
